@@ -15,7 +15,7 @@
 EXTENDS Naturals, Sequences, FiniteSets, TLC
 
 CONSTANTS MaxSessions, MaxTunnels, MaxLen, Protos,
-          Kinds,        \* which kinds of requests the histories contain: subset of {"tcp", "icmp"}
+          Kinds,        \* which kinds of requests the histories contain: subset of {"tcp", "icmp", "half"} ("half": with half-closes by the destination)
           EchoEvery     \* the (scripted) ICMP multiplexer answers every EchoEvery-th echo request of a tunnel
 
 Sess == 1..MaxSessions
@@ -27,12 +27,13 @@ VARIABLES
     tstate,     \* [Tun -> "free" | "open" | "closed"]
     tkind,      \* [Tun -> "tcp" | "icmp"]      TCP tunnel or ICMP multiplexer (CONNECT _icmp)
     ireq,       \* [Tun -> Nat]                 echo requests sent on an ICMP multiplexer
+    half,       \* [Tun -> BOOLEAN]             the destination has ended its direction, the tunnel is still open
     gSessions,  \* [Protos -> Nat]   gauge client_sessions
     gTcp,       \* Nat               gauge outbound_tcp_sockets
     cIn, cOut,  \* [Protos -> Nat]   counters inbound / outbound traffic bytes
     hist        \* history of operations (for replay)
 
-vars == << sproto, towner, tstate, tkind, ireq, gSessions, gTcp, cIn, cOut, hist >>
+vars == << sproto, towner, tstate, tkind, ireq, half, gSessions, gTcp, cIn, cOut, hist >>
 
 Op(name, s, t, n) == [op |-> name, s |-> s, t |-> t, n |-> n]
 Snap == [sessions |-> gSessions, tcp |-> gTcp, inb |-> cIn, outb |-> cOut]
@@ -41,7 +42,7 @@ Log(o) == hist' = Append(hist, [o |-> o, expect |-> Snap'])
 Init ==
     /\ sproto = [s \in Sess |-> "none"]
     /\ towner = [t \in Tun |-> 0] /\ tstate = [t \in Tun |-> "free"] /\ tkind = [t \in Tun |-> "tcp"]
-    /\ ireq = [t \in Tun |-> 0]
+    /\ ireq = [t \in Tun |-> 0] /\ half = [t \in Tun |-> FALSE]
     /\ gSessions = [p \in Protos |-> 0] /\ gTcp = 0
     /\ cIn = [p \in Protos |-> 0] /\ cOut = [p \in Protos |-> 0]
     /\ hist = << >>
@@ -51,7 +52,7 @@ SessionOpen(s, p) ==
     /\ sproto[s] = "none" /\ \A s2 \in Sess : s2 < s => sproto[s2] # "none"
     /\ sproto' = [sproto EXCEPT ![s] = p]
     /\ gSessions' = [gSessions EXCEPT ![p] = @ + 1]
-    /\ UNCHANGED << towner, tstate, tkind, ireq, gTcp, cIn, cOut >>
+    /\ UNCHANGED << half, towner, tstate, tkind, ireq, gTcp, cIn, cOut >>
     /\ Log(Op("SessionOpen", s, 0, IF p = "HTTP1" THEN 1 ELSE 2))
 
 FreeTun(t) == tstate[t] = "free" /\ \A t2 \in Tun : t2 < t => tstate[t2] # "free"
@@ -65,14 +66,14 @@ EndIfHttp1(s) ==
     IF sproto[s] = "HTTP1"
       THEN /\ sproto' = [sproto EXCEPT ![s] = "none"]
            /\ gSessions' = [gSessions EXCEPT !["HTTP1"] = @ - 1]
-      ELSE UNCHANGED << sproto, gSessions >>
+      ELSE UNCHANGED << half, sproto, gSessions >>
 
 \* CONNECT succeeds: OutboundTcpSocketCounter::new in TcpForwarder::connect
 TunnelOpen(s, t) ==
     /\ "tcp" \in Kinds /\ CanRequest(s) /\ FreeTun(t)
     /\ towner' = [towner EXCEPT ![t] = s] /\ tstate' = [tstate EXCEPT ![t] = "open"]
     /\ gTcp' = gTcp + 1
-    /\ UNCHANGED << sproto, tkind, ireq, gSessions, cIn, cOut >>
+    /\ UNCHANGED << half, sproto, tkind, ireq, gSessions, cIn, cOut >>
     /\ Log(Op("TunnelOpen", s, t, 0))
 
 \* CONNECT fails (refused): the guard created for the attempt is dropped again
@@ -80,7 +81,7 @@ TunnelFail(s, t) ==
     /\ "tcp" \in Kinds /\ CanRequest(s) /\ FreeTun(t)
     /\ towner' = [towner EXCEPT ![t] = s] /\ tstate' = [tstate EXCEPT ![t] = "closed"]
     /\ EndIfHttp1(s)
-    /\ UNCHANGED << tkind, ireq, gTcp, cIn, cOut >>
+    /\ UNCHANGED << half, tkind, ireq, gTcp, cIn, cOut >>
     /\ Log(Op("TunnelFail", s, t, 0))
 
 \* CONNECT _icmp: the ICMP multiplexer of tunnel.rs on_datagram_mux_request; no outbound TCP socket
@@ -88,7 +89,7 @@ IcmpOpen(s, t) ==
     /\ "icmp" \in Kinds /\ CanRequest(s) /\ FreeTun(t)
     /\ towner' = [towner EXCEPT ![t] = s] /\ tstate' = [tstate EXCEPT ![t] = "open"]
     /\ tkind' = [tkind EXCEPT ![t] = "icmp"]
-    /\ UNCHANGED << sproto, ireq, gSessions, gTcp, cIn, cOut >>
+    /\ UNCHANGED << half, sproto, ireq, gSessions, gTcp, cIn, cOut >>
     /\ Log(Op("IcmpOpen", s, t, 0))
 
 \* one echo request of n octets (ICMP header + data) goes out; every EchoEvery-th request of the
@@ -99,22 +100,31 @@ IcmpEcho(t, n) ==
     /\ ireq' = [ireq EXCEPT ![t] = @ + 1]
     /\ cIn' = [cIn EXCEPT ![sproto[towner[t]]] = @ + n]
     /\ cOut' = [cOut EXCEPT ![sproto[towner[t]]] = @ + (IF (ireq[t] + 1) % EchoEvery = 0 THEN n ELSE 0)]
-    /\ UNCHANGED << sproto, towner, tstate, tkind, gSessions, gTcp >>
+    /\ UNCHANGED << half, sproto, towner, tstate, tkind, gSessions, gTcp >>
     /\ Log(Op("IcmpEcho", towner[t], t, IF (ireq[t] + 1) % EchoEvery = 0 THEN n + 1000 ELSE n))
 
 \* n payload bytes relayed client -> destination
 Upload(t, n) ==
     /\ tstate[t] = "open" /\ tkind[t] = "tcp"
     /\ cIn' = [cIn EXCEPT ![sproto[towner[t]]] = @ + n]
-    /\ UNCHANGED << sproto, towner, tstate, tkind, ireq, gSessions, gTcp, cOut >>
+    /\ UNCHANGED << half, sproto, towner, tstate, tkind, ireq, gSessions, gTcp, cOut >>
     /\ Log(Op("Upload", towner[t], t, n))
 
 \* n payload bytes relayed destination -> client
 Download(t, n) ==
-    /\ tstate[t] = "open" /\ tkind[t] = "tcp"
+    /\ tstate[t] = "open" /\ tkind[t] = "tcp" /\ ~half[t]
     /\ cOut' = [cOut EXCEPT ![sproto[towner[t]]] = @ + n]
-    /\ UNCHANGED << sproto, towner, tstate, tkind, ireq, gSessions, gTcp, cIn >>
+    /\ UNCHANGED << half, sproto, towner, tstate, tkind, ireq, gSessions, gTcp, cIn >>
     /\ Log(Op("Download", towner[t], t, n))
+
+\* the destination ends its direction (FIN) while the client keeps the tunnel: over HTTP/2 the stream stays open for
+\* uploads (an HTTP/1.1 session ends with the download direction: that is TunnelClose by the peer).  The outbound
+\* connection is still there - it carries the uploads - so the gauge does not move: the guard lives as long as the socket
+PeerHalfClose(t) ==
+    /\ "half" \in Kinds /\ tstate[t] = "open" /\ tkind[t] = "tcp" /\ ~half[t] /\ sproto[towner[t]] = "HTTP2"
+    /\ half' = [half EXCEPT ![t] = TRUE]
+    /\ UNCHANGED << sproto, towner, tstate, tkind, ireq, gSessions, gTcp, cIn, cOut >>
+    /\ Log(Op("PeerHalfClose", towner[t], t, 0))
 
 \* the tunnel ends (client half-closes and the peer follows / the peer closes / reset):
 \* both pipe halves are dropped, with them the guard
@@ -124,7 +134,7 @@ TunnelClose(t, how) ==
     /\ gTcp' = IF tkind[t] = "tcp" THEN gTcp - 1 ELSE gTcp
     /\ (how = "CloseByPeer" => tkind[t] = "tcp")      \* a multiplexer has no peer that could close it
     /\ EndIfHttp1(towner[t])
-    /\ UNCHANGED << towner, tkind, ireq, cIn, cOut >>
+    /\ UNCHANGED << half, towner, tkind, ireq, cIn, cOut >>
     /\ Log(Op(how, towner[t], t, 0))
 
 \* the client drops the session: every tunnel of it ends, then the session guard
@@ -135,13 +145,14 @@ SessionClose(s) ==
          /\ gTcp' = gTcp - Cardinality({ t \in mine : tkind[t] = "tcp" })
     /\ gSessions' = [gSessions EXCEPT ![sproto[s]] = @ - 1]
     /\ sproto' = [sproto EXCEPT ![s] = "none"]
-    /\ UNCHANGED << towner, tkind, ireq, cIn, cOut >>
+    /\ UNCHANGED << half, towner, tkind, ireq, cIn, cOut >>
     /\ Log(Op("SessionClose", s, 0, 0))
 
 Next ==
     \/ \E s \in Sess, p \in Protos : SessionOpen(s, p)
     \/ \E s \in Sess, t \in Tun : TunnelOpen(s, t) \/ TunnelFail(s, t) \/ IcmpOpen(s, t)
     \/ \E t \in Tun, n \in {8, 64} : IcmpEcho(t, n)
+    \/ \E t \in Tun : PeerHalfClose(t)
     \/ \E t \in Tun, n \in {1, 1000, 70000} : Upload(t, n) \/ Download(t, n)
     \/ \E t \in Tun, how \in {"CloseByClient", "CloseByPeer"} : TunnelClose(t, how)
     \/ \E s \in Sess : SessionClose(s)
